@@ -89,7 +89,7 @@ CHECKS = {
             {"engine": "thrnet", "mode": "big", "worker": "asan", "build": "asan", "runs": {"quick": 48, "thorough": 1600}, "budget": {"quick": 45, "thorough": 1200}, "det": False},
         ],
         "rule": ("thrnet batch: see C06 (every call on the stateful inspector/participant and the stateless reconstruction runs under recover; shares of length 0/47/49, indices out of range). chaos mode: each run draws protocol, n<=5, t, dealer and a weighted mix of API calls (swarm), then 8..68 (thorough ..158) calls on live instances: deliveries of real messages to nodes in any "
-                 "phase, Start, Start with a too short seed, NextTimeout, End, ForceDisqualify with in/out-of-range indices, handlers with unauthenticated origins {-1,n,255,256,2^31-1,-2^31} "
+                 "phase, Start, Start with a too short seed (at any time) and a second Start with another valid seed, NextTimeout, End, ForceDisqualify with in/out-of-range indices, handlers with unauthenticated origins {-1,n,255,256,2^31-1,-2^31} "
                  "and raw payloads (mutated real messages, length/tag grammar 0,1,2,exact-1,exact,exact+1,10kB, points outside G2, x>=p). Every call runs under recover. Non-trivial = at least one "
                  "rejected or faulty call; distinct = distinct hash of the (action kind, model phase) sequence"),
         "time_unit": "API calls on DKG instances",
@@ -107,7 +107,7 @@ CHECKS = {
                  "messages, callbacks, error classes and End results must be identical. Non-trivial = at least one rejected call; distinct = distinct hash of the (action, phase, timeouts) sequence"),
         "time_unit": "API calls on DKG instances",
         "real": DKG_REAL, "stub": ["scheduler of API calls", "reference state machine (40 lines)", "twin execution"],
-        "assumptions": ["restarting an instance after an accepted End is outside the quantifier and never generated", "Start with an invalid seed is not modelled (only C09 generates it)"],
+        "assumptions": ["restarting an instance after an accepted End is outside the quantifier and never generated", "Start with a too short seed is modelled as documented: a dealer refuses it with an invalid-input error and stays not running (a later valid Start is accepted), a non-dealer ignores the seed"],
         "expected_probes": ["twin_runs"],
     },
     "C18": {
